@@ -96,8 +96,9 @@ func (c *Ctx) yamlSchema(t types.Type, dir string, depth int) string {
 }
 
 // marshalledType: the static type of the value handed to yaml.Marshal / writeYamlOutput in fn (through MakeInterface).
-func marshalledTypes(fn *ssa.Function) []types.Type {
+func (c *Ctx) marshalledTypes(fn *ssa.Function) []types.Type {
 	var out []types.Type
+	wrappers := c.marshalWrappers()
 	for _, ci := range callsIn(fn) {
 		n := calleeName(ci.Common())
 		var arg ssa.Value
@@ -107,12 +108,53 @@ func marshalledTypes(fn *ssa.Function) []types.Type {
 		case "cmd.writeYamlOutput":
 			arg = ci.Common().Args[1]
 		default:
-			continue
+			if callee := staticCallee(ci.Common()); callee != nil {
+				if i, ok := wrappers[callee]; ok && i < len(ci.Common().Args) {
+					arg = ci.Common().Args[i]
+				}
+			}
+			if arg == nil {
+				continue
+			}
 		}
 		if mi, ok := arg.(*ssa.MakeInterface); ok {
 			out = append(out, mi.X.Type())
 		}
 	}
+	return out
+}
+
+// marshalWrappers: the functions of the repo that hand one of their interface parameters, as it is, to yaml.Marshal
+// (or to another such function), with the index of that parameter.
+func (c *Ctx) marshalWrappers() map[*ssa.Function]int {
+	if c.marshalWrap != nil {
+		return c.marshalWrap
+	}
+	out := map[*ssa.Function]int{}
+	for round := 0; round < 3; round++ {
+		for _, fn := range c.srcFuncs() {
+			if _, done := out[fn]; done || fn.Parent() != nil {
+				continue
+			}
+			for _, ci := range callsIn(fn) {
+				var arg ssa.Value
+				if calleeName(ci.Common()) == "gopkg.in/yaml.v3.Marshal" {
+					arg = ci.Common().Args[0]
+				} else if callee := staticCallee(ci.Common()); callee != nil {
+					if i, ok := out[callee]; ok && i < len(ci.Common().Args) {
+						arg = ci.Common().Args[i]
+					}
+				}
+				if arg == nil {
+					continue
+				}
+				if i := paramIndexOf(fn, arg); i >= 0 {
+					out[fn] = i
+				}
+			}
+		}
+	}
+	c.marshalWrap = out
 	return out
 }
 
@@ -157,7 +199,7 @@ func ruleSchema(c *Ctx) {
 			c.bad(key, "", "", "producer of `"+p.label+"` not found")
 			continue
 		}
-		ts := marshalledTypes(fn)
+		ts := c.marshalledTypes(fn)
 		if len(ts) != 1 {
 			c.undec(key, c.pos(fn.Pos()), fname(fn), fmt.Sprintf("%d YAML outputs found, want 1", len(ts)))
 			continue
@@ -171,38 +213,87 @@ func ruleSchema(c *Ctx) {
 		c.site(1)
 		problem := ""
 		nStores := 0
-		allInstrs(mf, func(in ssa.Instruction) {
-			st, ok := in.(*ssa.Store)
-			if !ok {
-				return
-			}
-			n, base, ok := fieldName(st.Addr)
-			if !ok || base != ssa.Value(mf.Params[1]) {
-				return
-			}
-			nStores++
-			if n != "Meta" {
-				problem = "the modifier overwrites the instance's " + n
-				return
-			}
-			guarded := false
-			for _, pc := range pathConds(st.Block()) {
-				if b, ok := pc.cond.(*ssa.BinOp); ok && ((b.Op == token.EQL && pc.side) || (b.Op == token.NEQ && !pc.side)) && isNilConst(b.Y) {
-					if fn2, _, ok := loadedField(b.X); ok && fn2 == "Meta" {
-						guarded = true
+		// the stores and the Set may sit in a helper the instance is handed to (`v.setMeta(key, text)`): the whole region
+		tr := c.plainTracer()
+		chains := c.regionFuncChains(mf, nil)
+		var rfns []*ssa.Function
+		for f := range chains {
+			rfns = append(rfns, f)
+		}
+		sort.Slice(rfns, func(i, j int) bool { return fname(rfns[i]) < fname(rfns[j]) })
+		isInstance := func(l lval) bool {
+			l = tr.trace(l)
+			return len(l.chain) == 0 && l.v == ssa.Value(mf.Params[1])
+		}
+		var sets []lval // the key argument of every Meta.Set in the region
+		for _, f := range rfns {
+			chain := chains[f]
+			allInstrs(f, func(in ssa.Instruction) {
+				if ci, ok := in.(ssa.CallInstruction); ok && calleeName(ci.Common()) == "op.Meta.Set" && len(ci.Common().Args) >= 2 {
+					sets = append(sets, lval{ci.Common().Args[1], f, chain})
+				}
+				st, ok := in.(*ssa.Store)
+				if !ok {
+					return
+				}
+				// a write through something reached from the instance (its chord, the chord's base ...) changes the
+				// document that is printed, not only the label
+				if fa, isFA := st.Addr.(*ssa.FieldAddr); isFA {
+					l := lval{fa.X, f, chain}
+					steps, hit := 0, false
+					for depth := 0; depth < 10; depth++ {
+						l = tr.trace(l)
+						if len(l.chain) == 0 && l.v == ssa.Value(mf.Params[1]) {
+							hit = true
+							break
+						}
+						switch x := l.v.(type) {
+						case *ssa.UnOp:
+							if x.Op == token.MUL {
+								l, steps = l.with(x.X), steps+1
+								continue
+							}
+						case *ssa.FieldAddr:
+							l, steps = l.with(x.X), steps+1
+							continue
+						case *ssa.IndexAddr:
+							l, steps = l.with(x.X), steps+1
+							continue
+						}
+						break
+					}
+					if hit && steps > 0 {
+						fn2, _, _ := fieldName(fa)
+						problem = "the modifier writes into the instance's own data (field " + fn2 + " of something reached from the instance): what `write conv` prints is no longer what it read"
 					}
 				}
-			}
-			if !guarded {
-				problem = "the modifier replaces the instance's meta map even when one exists: lyrics, markers and other metadata of the chord are lost when `write conv -c cmt` output is piped into `write`"
-			}
-		})
-		sets := callsTo(mf, "op.Meta.Set")
+				n, base, ok := fieldName(st.Addr)
+				if !ok || !isInstance(lval{base, f, chain}) {
+					return
+				}
+				nStores++
+				if n != "Meta" {
+					problem = "the modifier overwrites the instance's " + n
+					return
+				}
+				guarded := false
+				for _, pc := range pathConds(st.Block()) {
+					if b, ok := pc.cond.(*ssa.BinOp); ok && ((b.Op == token.EQL && pc.side) || (b.Op == token.NEQ && !pc.side)) && isNilConst(b.Y) {
+						if fn2, _, ok := loadedField(b.X); ok && fn2 == "Meta" {
+							guarded = true
+						}
+					}
+				}
+				if !guarded {
+					problem = "the modifier replaces the instance's meta map even when one exists: lyrics, markers and other metadata of the chord are lost when `write conv -c cmt` output is piped into `write`"
+				}
+			})
+		}
 		if problem == "" && len(sets) != 1 {
 			problem = fmt.Sprintf("%d Meta.Set calls, want exactly one (the txt key)", len(sets))
 		}
 		if problem == "" {
-			if k, ok := constString(sets[0].Common().Args[1]); !ok || k != "txt" {
+			if k, ok := constString(tr.trace(sets[0]).v); !ok || k != "txt" {
 				problem = "the modifier does not write the txt key"
 			}
 		}
@@ -311,12 +402,18 @@ func ruleCodec(c *Ctx) {
 			k := enum[name]
 			pv, err := c.newFolder().foldCall(pf, []fval{{k: constant.MakeInt64(k), t: pf.Params[0].Type()}})
 			if err != nil || pv.k == nil || pv.k.Kind() != constant.String {
+				if os.Getenv("CRDCHECK_DEBUG") != "" {
+					fmt.Fprintf(os.Stderr, "round trip %s: printer does not fold on %s: %v %s\n", pr.enumType, name, err, pv.String())
+				}
 				okAll = false
 				break
 			}
 			text := constant.StringVal(pv.k)
 			rv, err := c.newFolder().foldCall(rf, []fval{{k: pv.k, t: rf.Params[0].Type()}})
 			if err != nil || rv.k == nil || rv.k.Kind() != constant.Int {
+				if os.Getenv("CRDCHECK_DEBUG") != "" {
+					fmt.Fprintf(os.Stderr, "round trip %s: reader does not fold on %q: %v %s\n", pr.enumType, text, err, rv.String())
+				}
 				okAll = false
 				break
 			}
@@ -618,9 +715,19 @@ func ruleCodec(c *Ctx) {
 		if folded == 42 {
 			how += " (printed text folded for all 42 keys)"
 		}
+		if folded == 42 {
+			// decided on every key: the shape of the printer no longer matters
+			a, mark = true, true
+		}
 		c.check(a && mark && orderProblem == "", fname(fn), c.pos(fn.Pos()), fname(fn), how, "Key.String no longer prints letter + accidental + `m` for minor keys: "+orderProblem)
 	}
 	if fn := c.fn("op", "ParseKey"); fn != nil {
+		// decided on 756 spellings by folding when it folds; how the text is taken apart no longer matters then
+		if problem, n, ok := c.parseKeyByFolding(); ok {
+			c.site(1)
+			c.check(problem == "", fname(fn), c.pos(fn.Pos()), fname(fn), fmt.Sprintf("%d spellings folded: exactly [A-G][#b]?m? is accepted and read as that letter, accidental and mode", n), fname(fn)+": "+problem)
+			return
+		}
 		c.site(1)
 		// fields come from captures 1, 2, 3 of the key regex in this order (the construction may sit in a helper)
 		tr := c.plainTracer()
@@ -858,6 +965,14 @@ func ruleScaleWire(c *Ctx) {
 		return
 	}
 	name := fname(fn)
+	// the whole constructor on every key spelling (7 letters x natural, sharp, flat x major, minor = 42), by folding: the 28
+	// keys that have a conventional signature get the seven notes, accidentals and counts of the derived scale, the other
+	// 14 are refused. When this folds, it stands for the shape obligations below that it subsumes.
+	if problem, n, ok := c.scalesByFolding(fn); ok {
+		c.site(1)
+		c.check(problem == "", name+"|domain", c.pos(fn.Pos()), name, fmt.Sprintf("%d key spellings folded: notes, accidentals and signature counts of the derived scale for the 28 keys, an error for the rest", n), name+": "+problem)
+		c.scalesFolded = true
+	}
 	// lookup miss -> error
 	c.site(1)
 	miss := false
@@ -1239,9 +1354,9 @@ func ruleCircleWire(c *Ctx) {
 		}
 		// the conversion of each step is applied to a key of the current member, in the order of the chain
 		var conv ssa.CallInstruction
-		for _, f := range withClosures(fn) {
-			for _, ci := range callsTo(f, "op.KeyConversion.Converter") {
-				conv = ci
+		for _, rc := range c.regionCalls(fn, nil) {
+			if calleeName(rc.call.Common()) == "op.KeyConversion.Converter" {
+				conv = rc.call
 			}
 		}
 		if problem == "" && conv == nil {
@@ -1249,12 +1364,16 @@ func ruleCircleWire(c *Ctx) {
 		}
 		if problem == "" {
 			outer := false
+			var outerLoop map[*ssa.BasicBlock]bool
 			for _, f := range withClosures(fn) {
 				allInstrs(f, func(in ssa.Instruction) {
 					if ia, ok := in.(*ssa.IndexAddr); ok && ia.X == ssa.Value(fn.Params[0]) {
 						if l := enclosingRangeLoop(ia.Block()); l != nil && ia.Index == l.index {
 							if bc, ok := l.bound.(*ssa.Call); ok && calleeName(&bc.Call) == "builtin.len" && bc.Call.Args[0] == ssa.Value(fn.Params[0]) {
 								outer = true
+								if f == fn {
+									outerLoop = l.blocks
+								}
 							}
 						}
 					}
@@ -1263,8 +1382,133 @@ func ruleCircleWire(c *Ctx) {
 			if !outer {
 				problem = "the steps are not applied in order over the whole chain"
 			}
+			// a step that fails ends the chain there and then: an error return inside the loop over the steps (a later
+			// step that happens to succeed must not wipe the failure out)
+			if problem == "" {
+				inside := false
+				for _, b := range fn.Blocks {
+					r, isRet := b.Instrs[len(b.Instrs)-1].(*ssa.Return)
+					if !isRet || len(r.Results) != 2 || isNilConst(r.Results[1]) {
+						continue
+					}
+					// (a returning block is an exit of the loop: it hangs on a block of the loop)
+					for _, p := range b.Preds {
+						if outerLoop != nil && outerLoop[p] {
+							inside = true
+						}
+					}
+				}
+				if !inside {
+					problem = "the error of a failing step is not returned from inside the loop over the steps: a later step can reset it, so an unknown conversion letter in the middle of a chain is skipped silently"
+				}
+			}
 		}
 		c.check(problem == "", name, c.pos(fn.Pos()), name, "NewScale(key) -> member; every step in order on the current member", name+": "+problem)
+		// every letter is a step: no round of the loop over the chain goes by without the step's converter being applied
+		// (a shortcut that recognises `a step and its inverse` and skips the look-up is right for two letters and wrong
+		// for three), and the key the converter is applied to is read from the current member
+		if problem == "" && conv != nil {
+			c.site(1)
+			p2 := ""
+			// the instruction of Convert itself that stands for the application (the converter may be applied inside the
+			// body of a range-over-func loop, which is a closure)
+			var at ssa.Instruction = conv
+			for at.Parent() != fn && at.Parent() != nil && at.Parent().Parent() != nil {
+				g := at.Parent()
+				var use ssa.Instruction
+				allInstrs(g.Parent(), func(in ssa.Instruction) {
+					if mc, ok := in.(*ssa.MakeClosure); ok && mc.Fn == ssa.Value(g) {
+						for _, r := range *mc.Referrers() {
+							if _, isCall := r.(ssa.CallInstruction); isCall {
+								use = r
+							}
+						}
+					}
+				})
+				if use == nil {
+					break
+				}
+				at = use
+			}
+			if at.Parent() == fn {
+				if l := enclosingRangeLoop(at.Block()); l != nil {
+					seen := map[*ssa.BasicBlock]bool{at.Block(): true}
+					var walk func(b *ssa.BasicBlock) bool
+					walk = func(b *ssa.BasicBlock) bool {
+						if b == l.header {
+							return true
+						}
+						if seen[b] || !l.blocks[b] {
+							return false
+						}
+						seen[b] = true
+						for _, s := range b.Succs {
+							if walk(s) {
+								return true
+							}
+						}
+						return false
+					}
+					for _, s := range l.header.Succs {
+						if l.blocks[s] && s != l.header && walk(s) {
+							p2 = "a round of the loop over the chain can go by without the step's converter being applied: that letter is not a step of its own"
+						}
+					}
+				} else {
+					p2 = "the steps' converters are not applied inside the loop over the chain"
+				}
+			}
+			// the member variable: what a successful return hands back
+			memberVars := map[ssa.Value]bool{}
+			for _, r := range returnsOf(fn) {
+				if len(r.Results) == 2 && isNilConst(r.Results[1]) {
+					v := r.Results[0]
+					if u, ok := v.(*ssa.UnOp); ok && u.Op == token.MUL {
+						v = u.X
+					}
+					memberVars[v] = true
+				}
+			}
+			for _, g := range withClosures(fn) {
+				if g == fn {
+					continue
+				}
+				allInstrs(g.Parent(), func(in ssa.Instruction) {
+					if mc, ok := in.(*ssa.MakeClosure); ok && mc.Fn == ssa.Value(g) {
+						for i, b := range mc.Bindings {
+							if memberVars[b] && i < len(g.FreeVars) {
+								memberVars[g.FreeVars[i]] = true
+							}
+						}
+					}
+				})
+			}
+			var applied *ssa.Call
+			if cv, ok := conv.(*ssa.Call); ok {
+				for _, r := range *cv.Referrers() {
+					if d, ok := r.(*ssa.Call); ok && d.Call.Value == ssa.Value(cv) && len(d.Call.Args) == 1 {
+						applied = d
+					}
+				}
+			}
+			if p2 == "" && applied != nil {
+				fromMember := dataDependsOn(applied.Call.Args[0], func(v ssa.Value) bool {
+					call, ok := v.(*ssa.Call)
+					if !ok || len(call.Call.Args) == 0 || !strings.HasPrefix(calleeName(&call.Call), "op.CircleMember.") {
+						return false
+					}
+					r := call.Call.Args[0]
+					if u, ok := r.(*ssa.UnOp); ok && u.Op == token.MUL {
+						r = u.X
+					}
+					return memberVars[r]
+				})
+				if !fromMember {
+					p2 = "the key a step is applied to is not read from the current member (the result of the step before): the steps work on a list of their own that can grow from round to round"
+				}
+			}
+			c.check(p2 == "", name+"|every-step", c.pos(conv.Pos()), name, "every round applies the step's converter to a key of the current member", name+": "+p2)
+		}
 	} else {
 		c.missing("op.KeyConversionChain.Convert")
 	}
@@ -1409,7 +1653,11 @@ func ruleAddDegree(c *Ctx) {
 			}
 		}
 	}
-	c.check(good, name+"|sum", c.pos(fn.Pos()), name, "pitch = root + interval, split into pitch class and octave", "AddDegree no longer computes root semitone + interval semitone and splits that one sum into pitch class and octave")
+	if !good && c.addDegreeFolded {
+		c.ok(name+"|sum", c.pos(fn.Pos()), name, "decided by "+name+"|domain")
+	} else {
+		c.check(good, name+"|sum", c.pos(fn.Pos()), name, "pitch = root + interval, split into pitch class and octave", "AddDegree no longer computes root semitone + interval semitone and splits that one sum into pitch class and octave")
+	}
 	// the ok of d.Semitone guards
 	for _, ci := range callsTo(fn, "note.Degree.Semitone") {
 		c.check(c.missReturnsError(ci.(*ssa.Call), 1, nil), name+"|invalid-interval", c.pos(ci.Pos()), name, "an invalid interval is an error", "an invalid interval is no longer an error in AddDegree")
@@ -1480,7 +1728,11 @@ func ruleAddDegree(c *Ctx) {
 				}
 			}
 		})
-		c.check(good, fname(f), c.pos(f.Pos()), fname(f), "letter + accidental == wanted pitch class", "findNameBySemitone no longer compares letter pitch + accidental with the wanted pitch class")
+		if !good && c.addDegreeFolded {
+			c.ok(fname(f), c.pos(f.Pos()), fname(f), "decided by "+name+"|domain")
+		} else {
+			c.check(good, fname(f), c.pos(f.Pos()), fname(f), "letter + accidental == wanted pitch class", "findNameBySemitone no longer compares letter pitch + accidental with the wanted pitch class")
+		}
 	}
 }
 
@@ -1794,5 +2046,140 @@ func (c *Ctx) checkDecodersKeepWhatTheyRead() {
 			}
 		}
 		c.check(problem == "", key, c.pos(fn.Pos()), fname(fn), "reads the node once and keeps what that gave", fname(fn)+": "+problem)
+		// ... and it does not succeed without keeping something: every return of a nil error comes after a store through
+		// the receiver (a decoder that answers nil early leaves the zero value - an unknown sign, a tempo of 0 - in place)
+		c.site(1)
+		recv := fn.Params[0]
+		var stores []ssa.Instruction
+		allInstrs(fn, func(in ssa.Instruction) {
+			if st, ok := in.(*ssa.Store); ok {
+				a := st.Addr
+				for i := 0; i < 4; i++ {
+					if fa, ok := a.(*ssa.FieldAddr); ok {
+						a = fa.X
+						continue
+					}
+					break
+				}
+				if a == ssa.Value(recv) {
+					stores = append(stores, st)
+				}
+			}
+		})
+		early := ""
+		for _, r := range returnsOf(fn) {
+			if len(r.Results) != 1 || !isNilConst(r.Results[0]) {
+				continue
+			}
+			kept := false
+			for _, st := range stores {
+				if dominatesInstr(st, r) {
+					kept = true
+				}
+			}
+			if !kept {
+				early = c.pos(r.Pos())
+				if early == "" {
+					early = "a return of nil"
+				}
+			}
+		}
+		c.check(early == "", key+"|keeps", c.pos(fn.Pos()), fname(fn), "every successful return comes after a store through the receiver", fmt.Sprintf("%s: succeeds (%s) without storing anything through the receiver: the value stays what it was - the zero value, which no constructor would hand out - and the text in the document is accepted unread", fname(fn), early))
 	}
+}
+
+// scalesByFolding folds op.NewScale on all 42 key spellings and compares with the independently derived scale.
+// ok=false when the constructor (or the signature table behind it) does not fold.
+func (c *Ctx) scalesByFolding(fn *ssa.Function) (string, int, bool) {
+	names := c.enumConsts("note", "Name")
+	accs := c.enumConsts("op", "Accidental")
+	nameOf, accOf := map[int64]string{}, map[int64]int{}
+	for k, v := range names {
+		nameOf[v] = k
+	}
+	for k, v := range accs {
+		switch k {
+		case "Natural":
+			accOf[v] = 0
+		case "Sharp":
+			accOf[v] = 1
+		case "Flat":
+			accOf[v] = -1
+		}
+	}
+	accConst := map[int]string{0: "Natural", 1: "Sharp", -1: "Flat"}
+	n := 0
+	problem := ""
+	for _, letter := range specLetters {
+		for _, acc := range []int{0, 1, -1} {
+			for _, minor := range []bool{false, true} {
+				k := SpecKey{Letter: letter, Acc: acc, Minor: minor}
+				key := fval{fields: map[string]fval{"Name": {k: constant.MakeInt64(names[letter])}, "Accidental": {k: constant.MakeInt64(accs[accConst[acc]])}, "Minor": {k: constant.MakeBool(minor)}}}
+				fd := c.newFolder()
+				fd.maxSteps = 20000
+				r, err := fd.foldCall(fn, []fval{key})
+				if err != nil || len(r.tuple) != 2 || !(r.tuple[1].isNil || r.tuple[1].nonNil) {
+					if os.Getenv("CRDCHECK_DEBUG") != "" {
+						fmt.Fprintf(os.Stderr, "scalesByFolding: %s does not fold: %v %s\n", k, err, r.String())
+					}
+					return "", 0, false
+				}
+				n++
+				want, werr := specScale(k)
+				if r.tuple[1].nonNil {
+					// the two minor keys with seven accidentals (A#m, Abm) are outside the 28 keys crd supports: refusing
+					// them is fine, accepting them is fine too as long as the scale is right
+					required := false
+					for _, rk := range requiredKeys() {
+						required = required || rk == k.String()
+					}
+					if werr == nil && required && problem == "" {
+						problem = fmt.Sprintf("the key %s is refused, it has the signature %+d", k, want.Sig)
+					}
+					continue
+				}
+				if werr != nil {
+					if problem == "" {
+						problem = fmt.Sprintf("the key %s is accepted, it has no conventional scale (%v)", k, werr)
+					}
+					continue
+				}
+				sc := fd.deref(r.tuple[0])
+				if sc.fields == nil || sc.fields["Notes"].fields == nil {
+					return "", 0, false
+				}
+				intOf := func(v fval) (int64, bool) {
+					if v.k == nil || v.k.Kind() != constant.Int {
+						return 0, false
+					}
+					return constant.Int64Val(v.k)
+				}
+				sharp, ok1 := intOf(sc.fields["Sharp"])
+				flat, ok2 := intOf(sc.fields["Flat"])
+				if !ok1 || !ok2 {
+					return "", 0, false
+				}
+				if int(sharp)-int(flat) != want.Sig || (sharp != 0 && flat != 0) {
+					if problem == "" {
+						problem = fmt.Sprintf("the key %s gets %d sharps and %d flats, its signature is %+d", k, sharp, flat, want.Sig)
+					}
+				}
+				for i := 0; i < 7; i++ {
+					nt := fd.deref(sc.fields["Notes"].fields[fmt.Sprintf("#%d", i)])
+					nm, ok1 := intOf(nt.fields["Name"])
+					ac, ok2 := intOf(nt.fields["Accidental"])
+					if nt.fields == nil || !ok1 || !ok2 {
+						return "", 0, false
+					}
+					gotAcc, known := accOf[ac]
+					if nameOf[nm] != want.Notes[i] || !known || gotAcc != want.Accs[i] {
+						if problem == "" {
+							problem = fmt.Sprintf("degree %d of %s is %s%+d, the derived scale has %s%+d there", i+1, k, nameOf[nm], gotAcc, want.Notes[i], want.Accs[i])
+						}
+					}
+				}
+			}
+		}
+	}
+	return problem, n, true
 }
